@@ -419,7 +419,8 @@ class FiniteAutomaton:
             fst.add_transition(s_from.value,
                                symb_by.value,
                                s_to.value,
-                               [symb_by.value])
+                               [] if isinstance(symb_by, Epsilon)
+                               else [symb_by.value])
         return fst
 
     def is_acyclic(self) -> bool:
